@@ -24,6 +24,8 @@ type Case struct {
 	Policy  int     `json:"policy"` // 0 round robin, 1 random, 2 least time
 	N       int     `json:"n"`      // targets
 	Dup     bool    `json:"dup"`    // the target list contains duplicates and an empty string
+	Dead    int     `json:"dead,omitempty"` // extra listed targets that are never reachable (the detector keeps re-checking them)
+	PauseUS int     `json:"pause_us,omitempty"` // pause between calls (lets the measured phase span several detector periods)
 	BaseUS  []int   `json:"base_us"`
 	Steps   []Step  `json:"steps"`
 	Calls   int     `json:"calls"`
@@ -45,6 +47,14 @@ func gen(t *rapid.T) Case {
 		c.BaseUS = append(c.BaseUS, rapid.SampledFrom(bases).Draw(t, "base"))
 	}
 	c.Calls = rapid.IntRange(3*c.N, 12*c.N).Draw(t, "calls")
+	if rapid.IntRange(0, 2).Draw(t, "with_dead") == 0 {
+		c.Dead = rapid.IntRange(1, 2).Draw(t, "dead")
+		if c.Policy != 2 {
+			// rotation must also hold across the detector's periodic re-checks of the dead targets
+			c.Calls = rapid.IntRange(20*c.N, 60*c.N).Draw(t, "calls_long")
+			c.PauseUS = rapid.SampledFrom([]int{500, 1000, 2000}).Draw(t, "pause_us")
+		}
+	}
 	if c.Policy == 2 {
 		c.TickKind = rapid.SampledFrom([]string{"never", "never", "every", "some"}).Draw(t, "tick_kind")
 		ns := rapid.IntRange(0, 3).Draw(t, "nsteps")
@@ -72,6 +82,9 @@ const maxLat = float64(time.Minute)
 type est struct{ lo, hi float64 }
 
 func run(c Case) kit.Outcome {
+	if c.Dead < 0 || c.Dead > 4 || c.PauseUS < 0 || c.PauseUS > 100000 {
+		return kit.Outcome{Invalid: true}
+	}
 	if c.Policy < 0 || c.Policy > 2 || c.N < 2 || c.N > 8 || len(c.BaseUS) != c.N || c.Calls < 1 || c.Calls > 2000 || c.Alpha < 0 || c.Alpha > 1 || len(c.Forms) == 0 {
 		return kit.Outcome{Invalid: true}
 	}
@@ -121,6 +134,11 @@ func run(c Case) kit.Outcome {
 	list := append([]string(nil), names...)
 	if c.Dup {
 		list = append(list, names[0], "", names[c.N-1])
+	}
+	for k := 0; k < c.Dead; k++ {
+		dn := fmt.Sprintf("dead%d", k)
+		frt.SetDown(dn, true)
+		list = append(list, dn)
 	}
 	client.Update(list...)
 	// model of the latency estimates (LeastTime): interval per target
@@ -239,6 +257,9 @@ func run(c Case) kit.Outcome {
 			hist = append(hist, fmt.Sprintf("call %d: target %d latency -> %dus down=%v", k, s.Target, s.LatUS, s.Down))
 		}
 		form := c.Forms[k%len(c.Forms)]
+		if c.PauseUS > 0 {
+			time.Sleep(time.Duration(c.PauseUS) * time.Microsecond)
+		}
 		r, ok := one(form)
 		if !ok {
 			return kit.Undecided("call %d did not return", k)
@@ -247,7 +268,10 @@ func run(c Case) kit.Outcome {
 			hist = append(hist, fmt.Sprintf("call %d: not routed to a target", k))
 			continue
 		}
-		i := index[r.Addr]
+		i, known := index[r.Addr]
+		if !known {
+			return kit.Fail("routed-to-dead-target", "call %d was routed to %s, a listed target that has never been reachable", k, r.Addr)
+		}
 		routed = append(routed, i)
 		if c.Policy == 2 {
 			line := fmt.Sprintf("call %d (%s) -> target %d took %v; estimates", k, form, i, r.Out.Sub(r.In))
@@ -337,6 +361,9 @@ func run(c Case) kit.Outcome {
 	}
 	if c.Dup {
 		out.Classes = append(out.Classes, "duplicates-in-target-list")
+	}
+	if c.Dead > 0 {
+		out.Classes = append(out.Classes, "with-unreachable-targets")
 	}
 	return out
 }
